@@ -1085,6 +1085,41 @@ def check_angle_units(c):
                                                     'impl': o[:600], 'expected_factor_to_radians': repr(want)})
 
 
+COMMA_EXPRS = ['e', 'exp 1', 'exp 2', 'e^2', 'ln e', 'log10 e', 'log2 e', 'pi', 'tau', 'phi', 'sqrt 2', 'sin 1', 'cos 1', 'tan 1',
+               'sinh 1', 'cosh 1', 'tanh 1', 'asin(1/2)', 'acos(1/3)', 'atan 2', 'asinh 3', 'acosh 3', 'atanh(1/3)', 'ln 10', 'exp(-3)',
+               'e^(1/2)', '2^(1/2)', 'exp(1/3)', 'sin(1 degree)', 'cos(e)', 'e pi', 'e + pi', 'exp 10', 'ln(e^2)', 'e^e', 'e to 20 dp',
+               'exp 1 to 20 dp', 'sin e', 'c', 'planck', 'avogadro', 'electron_mass', 'gravitational_constant', 'au to m', 'ly to m']
+
+def check_comma_style(c):
+    """the decimal-separator style is presentation only: an expression without decimal literals has the same
+    value in both styles, i.e. the comma-style output is the dot-style output with '.' and ',' exchanged
+    (witness class of the repaired finding comma_style_builtin_constants: e was 2718281828459045235)"""
+    rng = c.rng
+    exprs = list(COMMA_EXPRS)
+    fns = ['sin', 'cos', 'tan', 'asin', 'acos', 'atan', 'sinh', 'cosh', 'tanh', 'asinh', 'acosh', 'atanh', 'ln', 'log2', 'log10', 'exp', 'sqrt']
+    for _ in range(40 if c.tier == 'quick' else 400):
+        f = rng.choice(fns); a = rng.randint(1, 40); b = rng.randint(1, 40)
+        exprs.append('%s(%d/%d)' % (f, a, b) if rng.random() < 0.7 else '%s(%d/%d) * e' % (f, a, b))
+    dot = c.impl('elem', [sx([Sym('eval'), e]) for e in exprs])
+    com = c.impl('elem', [sx([Sym('eval-comma'), e]) for e in exprs])
+    swap = str.maketrans({'.': ',', ',': '.'})
+    for e, d, k in zip(exprs, dot, com):
+        pd, pk = try_parse(d), try_parse(k)
+        okd = isinstance(pd, list) and len(pd) == 2 and pd[0] == b'ok'
+        okk = isinstance(pk, list) and len(pk) == 2 and pk[0] == b'ok'
+        c.note_case('comma-style:' + e, okd, 'comma-style')
+        if okd:
+            word = pd[1].decode('utf-8', 'replace').split(' ')
+            # 'approx.' keeps its full stop
+            want = ' '.join(w if w == 'approx.' else w.translate(swap) for w in word)
+            if not okk or pk[1].decode('utf-8', 'replace') != want:
+                c.violation('comma-style-changes-value', {'kind': 'impl-vs-spec', 'layer': 'L2', 'op': 'eval-comma', 'expr': e,
+                                                          'dot_style': d, 'comma_style': k, 'expected_comma_style': want})
+        elif okk:
+            c.violation('comma-style-changes-value', {'kind': 'impl-vs-spec', 'layer': 'L2', 'op': 'eval-comma', 'expr': e,
+                                                      'dot_style': d, 'comma_style': k})
+
+
 C15_CONE = ['Base.Prelude', 'Elem.Bridge', 'Elem.Model', 'Elem.ModelProofs', 'Elem.BridgeProofs', 'Elem.RootProofs', 'Elem.RoundProofs',
             'Elem.RoundMulti', 'Elem.TrigReals', 'Elem.PointDefs', 'Elem.Accuracy', 'Elem.AccuracySmall', 'Elem.AccuracyMulti',
             'Elem.LogAccuracy', 'Units.Defs', 'Units.Algebra', 'Units.Lookup', 'Units.Generated.UnitTable', 'Elem.AngleTable',
@@ -1152,6 +1187,7 @@ def check(c):
         thorough_proof_c15(c)
     pim = check_pi(c)
     check_angle_units(c)
+    check_comma_style(c)
     check_into_f64(c)
     check_from_f64(c)
     check_real_fns(c)
